@@ -112,7 +112,17 @@ var HTMLOptionalEndTag = set(`
 // content besides script-supporting elements, which R03.11 handles separately) — only for these may the end tag be dropped without looking at what follows. Not among them:
 // p (flow content follows), rt/rp/rb/rtc (ruby holds base text between the annotations:
 // `<ruby>漢<rt>kan</rt>字<rt>ji</rt></ruby>`), html/head/body (comments, white space).
-var HTMLEndTagOmissibleBlind = set(`li dt dd optgroup option colgroup caption thead tbody tfoot tr td th`)
+// Not thead/tbody/tfoot either: a `tr` may follow them directly (the start tag of the tbody it belongs to is
+// optional, §4.9.5-4.9.7), and with the end tag gone that row is parsed into the section before it; and not optgroup
+// (an option may follow outside the group) or colgroup (another colgroup may follow) — those need a look at the next tag.
+// option only inside select: in a datalist (phrasing content as fallback) text can follow an option.
+var HTMLEndTagOmissibleBlind = set(`li dt dd caption tr td th`)
+
+// … elements whose end tag can be dropped blindly only inside the named ancestor.
+var HTMLEndTagOmissibleBlindIn = map[string]string{"option": "select"}
+
+// HTML §13.2.6.4.13 "in table body": the start tags that pop the current thead/tbody/tfoot.
+var HTMLTableSectionClosers = set(`caption col colgroup tbody tfoot thead`)
 
 // … whose start AND end tag may be omitted when the element has no attributes.
 var HTMLOptionalBothTags = set(`html head body colgroup tbody`)
